@@ -1,9 +1,10 @@
 PROP = {
     "level": "proof",
-    "legs": ["c14-clock"],
+    "legs": ["c14-clock", "c14-interleave"],
     "timeout_quick": 600,
     "trusted_base": TB_COMMON + [
         "hook /repo/verif_clock.go (build tag verif, add-only): VerifClockSnapshot/Reset/MakeDeadline/Period read or reset the clock state under fast.mu",
+        "scheduling points verifClockPoint(1|2) in makeDeadline (two inserted lines in /repo/fastclock.go, empty function without the verif tag; verif_clockpoint_on.go/_off.go): leg c14-interleave parks a call between its unlocked loads and its critical section while another call completes, producing on the real code the schedules the model's theorems quantify over",
         "wall-clock stamps (time.Since on Go's monotonic clock) and runtime.Stack as taken by the harness",
     ],
     "assumptions": ASSUME_COMMON + [
